@@ -3067,7 +3067,9 @@ static Token *attribute_list(Token *tok, Type *ty) {
       if (consume(&tok, tok, "aligned")) {
         tok = skip(tok, "(");
         Token *start = tok;
-        int align = const_expr(&tok, tok);
+        int64_t align = const_expr(&tok, tok);
+        if (align > INT32_MAX)
+          error_tok(start, "requested alignment is out of range");
         // Like gcc, ignore a request that is not a positive alignment;
         // an alignment of 0 would later be used as a divisor.
         if (align > 0)
